@@ -145,7 +145,9 @@ PROPS = {
                 note=TV_NOTE + " 'fired' is reported by the injecting reader/writer/driver of the harness.",
                 technique="exhaustive fault-position enumeration on the real code, each run judged by TLC against the I/O specifications",
                 rule="corpus x every fault position; non-trivial = a run in which the injected fault fired; distinct by (operation, input, fault position)"),
-    "C16": dict(level="model_checking", nontrivial=nt_c16, trace_module="FloatTrace.tla", trace_cfg="FloatTrace.cfg",
+    "C16": dict(mc=[dict(name="ShortDefMC", module="ShortDefMC.tla", cfg="ShortDefMC.cfg", timeout=900),
+                    dict(name="ShortDefPinLow", module="ShortDefMC.tla", cfg="ShortDefPinLow.cfg", expect_violation="AgreesWrongLow")],
+                level="model_checking", nontrivial=nt_c16, trace_module="FloatTrace.tla", trace_cfg="FloatTrace.cfg",
                 text="Structured samples of binary64 (every biased exponent with mantissas 0, 1, 2, 2^52-1, 2^51, alternating bit patterns and random ones; both signs; every power of two and "
                      "ten with its two neighbours; integers around 2^53; halfway decimal cases; subnormal extremes; short decimals; random bit patterns) are formatted by the real "
                      "ryu.AppendFloat64f into destination buffers with varied content, spare capacity and stale bytes, and by ToJSON of a float column. For every output TLC decides, with "
